@@ -68,6 +68,7 @@ type result struct {
 
 func fatal2(format string, a ...any) {
 	fmt.Fprintf(os.Stderr, "dsim: "+format+"\n", a...)
+	removeBins()
 	os.Exit(2)
 }
 
@@ -85,6 +86,13 @@ func run(dir string, env []string, name string, args ...string) ([]byte, error) 
 }
 
 var buildMu sync.Mutex
+var cleanupBins []string
+
+func removeBins() {
+	for _, b := range cleanupBins {
+		os.Remove(b)
+	}
+}
 
 // build regenerates the overlay from the current /repo tree and builds one test binary.
 func build(bin string) string {
@@ -117,8 +125,32 @@ func build(bin string) string {
 	}
 	outPath := filepath.Join(verifDir, "build", "bin", bin+".test")
 	t0 := time.Now()
-	if out, err := run(simDir, goEnv(), goBin, "test", "-c", "-vet=off", "-overlay", filepath.Join(ov, "overlay.json"), "-o", outPath, pkg); err != nil {
+	// build beside the target and rename into place: another check may be executing the old binary
+	tmpOut := fmt.Sprintf("%s.new.%d", outPath, os.Getpid())
+	if out, err := run(simDir, goEnv(), goBin, "test", "-c", "-vet=off", "-overlay", filepath.Join(ov, "overlay.json"), "-o", tmpOut, pkg); err != nil {
+		os.Remove(tmpOut)
 		fatal2("building %s from the current /repo tree failed: %v\n%s", bin, err, lastLines(string(out), 60))
+	}
+	// every check works on its own copy so that a concurrent rebuild cannot swap the binary under it
+	outPath = fmt.Sprintf("%s.%d", outPath, os.Getpid())
+	if err := os.Rename(tmpOut, outPath); err != nil {
+		fatal2("%v", err)
+	}
+	cleanupBins = append(cleanupBins, outPath)
+	// drop copies left behind by invocations that were killed
+	if ents, err := os.ReadDir(filepath.Dir(outPath)); err == nil {
+		for _, e := range ents {
+			n := e.Name()
+			i := strings.LastIndex(n, ".")
+			if i < 0 || !strings.Contains(n, ".test.") {
+				continue
+			}
+			if pid, err := strconv.Atoi(n[i+1:]); err == nil {
+				if _, err := os.Stat(fmt.Sprintf("/proc/%d", pid)); err != nil {
+					os.Remove(filepath.Join(filepath.Dir(outPath), n))
+				}
+			}
+		}
 	}
 	fmt.Fprintf(os.Stderr, "dsim: built %s in %.1fs\n", bin, time.Since(t0).Seconds())
 	return outPath
@@ -372,7 +404,9 @@ func main() {
 		if len(os.Args) < 4 {
 			fatal2("usage: dsim check <property> <quick|thorough>")
 		}
-		os.Exit(check(os.Args[2], os.Args[3]))
+		rc := check(os.Args[2], os.Args[3])
+		removeBins()
+		os.Exit(rc)
 	case "build":
 		for _, b := range os.Args[2:] {
 			build(b)
@@ -381,7 +415,9 @@ func main() {
 		if len(os.Args) < 3 {
 			fatal2("usage: dsim replay <file>")
 		}
-		os.Exit(replayCmd(os.Args[2]))
+		rc := replayCmd(os.Args[2])
+		removeBins()
+		os.Exit(rc)
 	case "selftest":
 		if len(os.Args) < 4 || os.Args[2] != "determinism" {
 			fatal2("usage: dsim selftest determinism <property> [nseeds]")
@@ -390,7 +426,9 @@ func main() {
 		if len(os.Args) > 4 {
 			n, _ = strconv.Atoi(os.Args[4])
 		}
-		os.Exit(selftestDeterminism(os.Args[3], n))
+		rc := selftestDeterminism(os.Args[3], n)
+		removeBins()
+		os.Exit(rc)
 	default:
 		fatal2("unknown command %q", os.Args[1])
 	}
@@ -613,7 +651,7 @@ func check(prop, tier string) int {
 		h := unknown[0]
 		if oc := os.Getenv("DSIM_ONLY_CLASS"); oc != "" { // triage aid: minimise the first violation of this class
 			for _, u := range unknown {
-				if u.v.Class == oc {
+				if u.v.Class == oc && (os.Getenv("DSIM_ONLY_KEY") == "" || u.v.Key == os.Getenv("DSIM_ONLY_KEY")) {
 					h = u
 					break
 				}
